@@ -152,6 +152,28 @@ theorem vhandler_flow_as_modelled :
        (0, "assign", "err = ValidateRequest(r.Context(), requestValidationInput)"), (0, "if", "err != nil"),
        (1, "return", "return err"), (0, "return", "return nil")] := by decide
 
+set_option maxRecDepth 8000 in
+/-- the four serving functions of ValidationHandler parse completely; ServeHTTP and the closure of Middleware are the
+same program -/
+theorem vhandler_source_programs :
+    vProg (flowOf middlewareFlow "ValidationHandler.ServeHTTP") = some vServeProg ∧
+    vProg (flowOf middlewareFlow "ValidationHandler.Middleware") = some vServeProg ∧
+    vProg (flowOf middlewareFlow "ValidationHandler.before") = some vBeforeProg ∧
+    vProg (flowOf middlewareFlow "ValidationHandler.validateRequest") = some vValidateProg := by decide
+
+/-- **vhandler_source_is_model.** ServeHTTP / Middleware → before → validateRequest, run statement by statement, is
+the model `vhandler`: for every failure kind of the request, every ErrorEncoder behaviour, handler and transport the
+wrapped handler runs iff the request has no failure, on the raw writer, and otherwise the encoder alone answers. -/
+theorem vhandler_source_is_model (encOps : ReqFail → List Op) (fail : ReqFail) (ops : List Op) (server : Bool) :
+    vexec encOps fail ops server vServeProg vBeforeProg vValidateProg = vhandler encOps fail ops server := by
+  cases fail <;>
+    simp [vexec, vexecRows, vstep, vrun, vServeProg, vBeforeProg, vValidateProg, vhandler, routeErr, requestErr]
+
+/-- without the `return` under `if handled` the handler runs behind the encoder's answer -/
+theorem witness_vhandler_dropped_return :
+    (vexec (fun _ => []) .invalid [] false (vServeProg.eraseIdx 2) vBeforeProg vValidateProg).handlerRan = true ∧
+    (vhandler (fun _ => []) .invalid [] false).handlerRan = false := by decide
+
 /-- the strict wrapper's methods, conditions included: `Strict.step` (.writeHeader: nothing while a header is
 recorded; an informational code dropped; else record), (.write: implied WriteHeader(200), then buffer),
 `Strict.flushOut` (forward the status only when one was recorded, then write the buffer), `validatedStatus`'s input -/
